@@ -34,6 +34,7 @@ import FianoModel.Uefi.SectionLemmas
 import FianoModel.Uefi.EditTie
 
 namespace Fiano.Uefi.C02
+open EditArith
 open Fiano Fiano.Uefi
 
 /-- **pad files are valid** (`CreatePadFile`, both header forms, both polarities): the requested
@@ -303,6 +304,7 @@ example : Sized (.flash
 end Fiano.Uefi.C02
 
 namespace Fiano.Uefi.C02
+open EditArith
 open Fiano Fiano.Uefi
 
 /-- a RAW section of 8 bytes is a section the section-area theorem accepts -/
